@@ -28,6 +28,8 @@ type Config struct {
 	Workers      int
 	Seed         int64
 	Samples      int
+	PreemptAtSync  bool // explore goroutine switches at lock acquisitions
+	MaxPreemptions int
 	BudgetS      float64 // wall-clock budget per harness (0: none); exceeding it truncates
 	Progress     bool
 	MaxViolPerLabel int
@@ -71,6 +73,7 @@ type Violation struct {
 	Inputs   []Input  `json:"inputs"`
 	Trace    []int32  `json:"decisions"`
 	Observed []string `json:"observations,omitempty"`
+	Sched    bool     `json:"schedule_dependent,omitempty"` // the path took a goroutine preemption decision
 }
 
 type Outcome struct {
@@ -351,6 +354,7 @@ func (m *Machine) resetPath() {
 	m.opaqueN = 0
 	m.timeVarSeq = 0
 	m.lastNow = nil
+	m.preemptions = 0
 	m.epoch++
 }
 
@@ -627,6 +631,7 @@ func (m *Machine) decideFree(site string, n int) int {
 
 func (m *Machine) recordViolation(v *Violation) {
 	ps := m.ps
+	v.Sched = m.preemptions > 0
 	v.Inputs = m.concretizeInputs(ps.inputs, ps.ev)
 	v.Trace = append([]int32{}, ps.trace...)
 	for _, o := range ps.obs {
